@@ -74,15 +74,6 @@ theorem advanceAll_newlines (nl : Text) (hnl : NlOk nl) (lc : Nat × Nat) (n : N
     · subst h0; simp [repeatText, advanceAll, advanceWAll]
     · rw [ih _ (by omega)]; simp; omega
 
-theorem rfindNl_none (p : Text) (h0 : countNl p = 0) : rfindNl p = none := by
-  induction p with
-  | nil => rfl
-  | cons d ds ihd =>
-    simp only [countNl] at h0
-    have hd : d ≠ 10 := by intro hd; simp [hd] at h0
-    have : countNl ds = 0 := by omega
-    simp [rfindNl, ihd this, hd]
-
 /-- The state's (line, column) is where its output really ends. -/
 def Sync (s : St) : Prop := advanceAll (1, 1) s.out = (s.line, s.col)
 
@@ -155,25 +146,12 @@ theorem push_sync (colAfter : Nat → Text → Nat) (nl : Text) (hnl : NlOk nl) 
     simp [pushTokenWith]
   rw [hout, advanceAll_append, hreach]
 
-/-- The coded column update is honest for ASCII texts that either have no line feed or end in one. -/
-theorem honest_coded (x : MTok) (hascii : ∀ c ∈ x.text, c < 128)
-    (hnl : countNl x.text = 0 ∨ lastSeg x.text = []) : Honest colAfterCoded x := by
+/-- The coded column update tells the truth about every text. -/
+theorem honest_coded (x : MTok) : Honest colAfterCoded x := by
   unfold Honest colAfterCoded advanceAll
   rw [advanceWAll_eq]
   by_cases h0 : countNl x.text = 0
-  · simp [h0, rfindNl_none x.text h0, lenW_one, utf8Len_ascii x.text hascii]
-  · have hl : lastSeg x.text = [] := by
-      rcases hnl with h | h
-      · exact absurd h h0
-      · exact h
-    have : countNl x.text > 0 := by omega
-    simp [h0, this, hl, lenW]
-
-theorem honest_fixed (x : MTok) : Honest colAfterFixed x := by
-  unfold Honest colAfterFixed advanceAll
-  rw [advanceWAll_eq]
-  by_cases h0 : countNl x.text = 0
-  · simp [h0, lenW_one]
+  · simp [h0, lenW_one, lastSeg_of_noNl x.text h0]
   · have : countNl x.text > 0 := by omega
     simp [h0, this, lenW_one]; omega
 
